@@ -24,7 +24,7 @@ import (
 // ---------------------------------------------------------------- C15
 
 var c15Answers = []string{"valid", "valid_extra", "valid_big", "missing", "error", "wrong_log_key", "no_wit_sig", "bad_wit_sig", "other_wit", "corrupted", "other_log", "empty", "garbage"}
-var c15Net = []string{"redirloop:307", "redirloop:308", "redirloop:302", "redirloop:303", "redirloop:301", "", "", "", "status:400", "status:404", "status:409", "status:500", "status:503", "status:201", "drop", "droprsp", "redirect:301", "redirect:302", "redirect:307", "redirect:308", "trunc:3", "stall", "delay:700"}
+var c15Net = []string{"redirloop:307", "redirloop:308", "redirloop:302", "redirloop:303", "redirloop:301", "", "", "", "status:400", "status:404", "status:409", "status:500", "status:503", "status:201", "status:401", "status:403", "status:408", "status:410", "status:413", "status:422", "status:425", "status:429", "status:451", "status:501", "status:502", "status:504", "status:507", "status:204", "status:202", "drop", "droprsp", "redirect:301", "redirect:302", "redirect:307", "redirect:308", "trunc:3", "stall", "delay:700"}
 
 type distWitness struct {
 	answers map[string][]byte
